@@ -47,6 +47,8 @@ def run(tier, seed):
     viol, hits, nontriv, samples = [], {}, set(), []
     with vlib.Scratch() as sc:
         for i in range(n):
+            if sum(1 for v in viol if "did not terminate" in v.get("why", "")) >= 3:
+                break
             spec = gen(r, i)
             base = os.path.join(sc.dir, "w%d" % i)
             src, dst = base + "/src", base + "/dst"
@@ -65,6 +67,9 @@ def run(tier, seed):
                             os.utime(os.path.join(src, e["p"]), ns=((world.T0 + 9000) * 10**9,) * 2)
                 rr = world.run_sy([src, dst, "-H", "-j%d" % j, "-q"], sc, timeout=25)
                 if rr["timeout"]:
+                    hung_total = sum(1 for v in viol if "did not terminate" in v.get("why", ""))
+                    if hung_total >= 3:
+                        break
                     viol.append({"world": i, "phase": phase, "j": j, "why": "sy -H did not terminate within 25 s", "klass": None, "spec": [(e["p"], e["k"], e.get("to")) for e in spec]})
                     break
                 s_snap, d_snap = world.snapshot(src), world.snapshot(dst)
